@@ -149,6 +149,6 @@ def finish(prop, tier, results, t0, level_note_assumptions, seed=0):
         json.dump(ev, fh, indent=1, default=str)
     print("%s [%s]: %d obligations, %d discharged, %d violation(s), %d known finding(s), %d checker error(s), %.1fs"
           % (prop, tier, obligations, discharged, len(viol), len(known_hit), len(errors), time.time() - t0))
-    if errors:
-        return 2
-    return 1 if viol else 0
+    if viol:
+        return 1          # a violation was found (checker errors, if any, are printed as well)
+    return 2 if errors else 0
